@@ -91,11 +91,12 @@ struct S2 : TSharedComponentTag<S2> { int64_t v = 0; S2() = default; explicit S2
 enum DynFlags { kDynCreate = 1, kDynCopy = 2, kDynMove = 4, kDynMoveCtor = 8, kDynDestroy = 16, kDynDefault = 32 };
 static int g_dyn_flags[kNumPal] = {0};
 
-template<int PAL> static void dyn_create(void* p, const Entity&, World&) { *static_cast<int64_t*>(p) = kDefaultBase + PAL; log_event("C:" + std::to_string(PAL) + ":" + place_of(p)); }
-template<int PAL> static void dyn_copy(void* d, const void* s) { *static_cast<int64_t*>(d) = *static_cast<const int64_t*>(s); log_event("CP:" + std::to_string(PAL) + ":" + place_of(d) + ":" + place_of(s)); }
-template<int PAL> static void dyn_move(void* d, void* s) { *static_cast<int64_t*>(d) = *static_cast<int64_t*>(s); log_event("MA:" + std::to_string(PAL) + ":" + place_of(d) + ":" + place_of(s)); }
-template<int PAL> static void dyn_move_ctor(void* d, void* s) { *static_cast<int64_t*>(d) = *static_cast<int64_t*>(s); log_event("MC:" + std::to_string(PAL) + ":" + place_of(d) + ":" + place_of(s)); }
-template<int PAL> static void dyn_destroy(void* p) { log_event("D:" + std::to_string(PAL) + ":" + place_of(p)); }
+static std::atomic<long> g_dyn_calls[5];   // create, copy, move (assignment), move constructor, destroy: the D line
+template<int PAL> static void dyn_create(void* p, const Entity&, World&) { g_dyn_calls[0]++; *static_cast<int64_t*>(p) = kDefaultBase + PAL; log_event("C:" + std::to_string(PAL) + ":" + place_of(p)); }
+template<int PAL> static void dyn_copy(void* d, const void* s) { g_dyn_calls[1]++; *static_cast<int64_t*>(d) = *static_cast<const int64_t*>(s); log_event("CP:" + std::to_string(PAL) + ":" + place_of(d) + ":" + place_of(s)); }
+template<int PAL> static void dyn_move(void* d, void* s) { g_dyn_calls[2]++; *static_cast<int64_t*>(d) = *static_cast<int64_t*>(s); log_event("MA:" + std::to_string(PAL) + ":" + place_of(d) + ":" + place_of(s)); }
+template<int PAL> static void dyn_move_ctor(void* d, void* s) { g_dyn_calls[3]++; *static_cast<int64_t*>(d) = *static_cast<int64_t*>(s); log_event("MC:" + std::to_string(PAL) + ":" + place_of(d) + ":" + place_of(s)); }
+template<int PAL> static void dyn_destroy(void* p) { g_dyn_calls[4]++; log_event("D:" + std::to_string(PAL) + ":" + place_of(p)); }
 
 template<int PAL> static ComponentInfo dyn_info(int flags) {
     ComponentInfo info;
@@ -389,6 +390,7 @@ static void dump(std::ostream& out) {
         }
         out << "\n";
     }
+    out << "D cr=" << g_dyn_calls[0] << " cp=" << g_dyn_calls[1] << " mv=" << g_dyn_calls[2] << " mc=" << g_dyn_calls[3] << " ds=" << g_dyn_calls[4] << "\n";
     // Y: every parked temporary lies inside one block of its command buffer, aligned for its type, disjoint from the others
     {
         size_t n = 0, oob = 0, mis = 0, ovl = 0;
@@ -546,6 +548,7 @@ struct JobSpec { std::vector<std::pair<int, int>> reqs; /* pal, flags: 1 const, 
 static std::string run_script(const std::vector<std::string>& lines, std::ostream& out) {
     Driver drv; g_drv = &drv; Driver& d = drv;
     g_events.clear();
+    for (auto& c_ : g_dyn_calls) c_ = 0;
     mustache_verif_chunk_capacity = 0;
     size_t opn = 0;
     auto ensure_world = [&] {
